@@ -44,6 +44,16 @@ def _plan(draw, max_rows):
     keys = draw(st.permutations(keys))
     plan = {"frame": {"n": n, "cols": [cols[i] for i in order]}, "keys": [list(k) for k in keys]}
     if n >= 2 and draw(st.integers(0, 11)) == 0:
+        # all keys plain numbers of different kinds: 64-bit integers that a float64 cannot tell apart must still
+        # be ordered exactly (no stacking of the keys into one common dtype)
+        cols2, keys2 = [], []
+        for j, kind in enumerate(draw(st.sampled_from([["i", "f"], ["f", "i"], ["i", "f", "u8"], ["i", "i8", "f"]]))):
+            pool = {"i": [2**53, 2**53 + 1, 2**53 + 2, 2**63 - 1, 2**63 - 2, 0], "f": [0.0, 1.0, -1.0, 2.5],
+                    "u8": [0, 1, 255], "i8": [-128, 0, 127]}[kind]
+            cols2.append({"name": f"k{j}", "kind": kind, "vals": [draw(st.sampled_from(pool)) for _ in range(n)]})
+            keys2.append([f"k{j}", draw(st.sampled_from([1, -1]))])
+        return {"frame": {"n": n, "cols": cols2}, "keys": keys2}
+    if n >= 2 and draw(st.integers(0, 11)) == 0:
         # stale-width history: short strings only, then a cell becomes a longer string that shares its prefix with
         # another cell (anything remembered about the column's width is out of date at the second sort)
         kc = cols[0]
